@@ -187,7 +187,7 @@ func runCheck(l *Loaded, id, tier string, seed int64, spec *Spec, start time.Tim
 		}
 		seenViol[key] = true
 		j := violJobs[i]
-		doc := replayDoc{Property: id, Harness: j.Func, Pkg: j.Pkg, Args: j.Args, Inputs: v.Inputs, Label: v.Label, Facets: v.Facets, Msg: v.Msg, Sched: v.Sched, Multi: len(v.Sched) > 2 || v.EngineOnly || v.Label == "deadlock" || v.Label == "hang" || v.Label == "livelock" || v.Label == "no-progress-loop", EnvChoices: v.EnvChoices, EngineOnly: v.EngineOnly}
+		doc := replayDoc{Property: id, Harness: j.Func, Pkg: j.Pkg, Args: j.Args, Inputs: v.Inputs, Label: v.Label, Facets: v.Facets, Msg: v.Msg, Sched: v.Sched, Multi: len(v.Sched) > 2 || v.EngineOnly || v.Label == "deadlock" || v.Label == "hang" || v.Label == "livelock" || v.Label == "no-progress-loop" || strings.HasPrefix(v.Label, "c10-pooled-buffer-returned"), EnvChoices: v.EnvChoices, EngineOnly: v.EngineOnly}
 		path := fmt.Sprintf("%s/replay/%s-%d.json", verifDir(), id, nviol)
 		data, _ := json.MarshalIndent(doc, "", " ")
 		os.WriteFile(path, data, 0o644)
